@@ -173,7 +173,8 @@ MacFilter(sc, c, v) ==
 MacBindVals == MacValsF \cup MacValsM \cup MacValsG
 \* scenario model: a macro definition and the ways of referring to it
 MacRefVals == { L1, Pct(<<"W">>), R(<<"gin","macro">>, <<"W">>, "bare"), R(<<"gin","macro">>, <<"W">>, "call"), R(<<"gin","macro">>, <<"X">>, "call"),
-                R(<<"gin","macro">>, <<"W","X">>, "call") }        \* the scope-like macro name W/X: bound only if W/X itself is
+                R(<<"gin","macro">>, <<"W","X">>, "call"),         \* the scope-like macro name W/X: bound only if W/X itself is
+                <<"dict", << <<Pct(<<"W">>), L1>>, <<Pct(<<"X">>), L2>> >>>> }   \* two macros as the keys of one dict
 MacRefFilter(sc, c, v) ==
   \/ c.sel = <<"m","f">> /\ v \in MacRefVals /\ sc = <<>>
   \/ c.sel = <<"gin","macro">> /\ v = L1 /\ sc \in {<<"W">>, <<"X">>}
@@ -273,12 +274,14 @@ SerT2 == [ Base EXCEPT !.sel = <<"aa","T">>, !.kind = "cls", !.pos = <<"p">>, !.
 SerM1 == [ Base EXCEPT !.sel = <<"x","T","s">>, !.kind = "meth", !.pos = <<"p">>, !.npd = 1, !.dflt = {<<"p", D("p")>>}, !.api = "register" ]
 SerM2 == [ Base EXCEPT !.sel = <<"aa","T","s">>, !.kind = "meth", !.pos = <<"p","q">>, !.npd = 2, !.dflt = {<<"p", D("p")>>, <<"q", D("q")>>}, !.api = "register" ]
 SerM3 == [ Base EXCEPT !.sel = <<"x","T","u">>, !.kind = "meth", !.pos = <<"q">>, !.npd = 1, !.dflt = {<<"q", D("q")>>}, !.api = "register", !.allow = {"q"} ]
-SerConfs == {SerA, SerB, SerC, SerD, SerE, SerE2, GinMacro, SerT1, SerT2, SerM1, SerM2, SerM3}
-SerRegs0 == { {SerA, SerB, SerC, SerD, SerE, GinMacro}, {SerA, SerD, GinMacro}, {SerB, SerC, SerE, GinMacro}, {SerD, SerE, SerE2, GinMacro} }
+\* a third module whose last component is m (three imports competing for one name under dynamic registration)
+SerX == [ Base EXCEPT !.sel = <<"x","m","k">>, !.pos = <<"p">>, !.npd = 1, !.dflt = {<<"p", D("p")>>}, !.api = "external" ]
+SerConfs == {SerA, SerB, SerC, SerD, SerE, SerE2, GinMacro, SerT1, SerT2, SerM1, SerM2, SerM3, SerX}
+SerRegs0 == { {SerA, SerB, SerC, SerD, SerE, GinMacro, SerX}, {SerA, SerD, GinMacro}, {SerB, SerC, SerE, GinMacro}, {SerD, SerE, SerE2, GinMacro} }
 SerRegsM == { {SerA, SerD, GinMacro, SerT1, SerT2, SerM1, SerM2, SerM3}, {SerD, SerE, GinMacro, SerT1, SerM1, SerM3} }
 SerRegs == SerRegs0 \cup SerRegsM
 SerValsM == { L1, N1, R(<<"x","Gee">>, <<>>, "call"), <<"list", <<L1, N1>>>> }
-SerVals == { L1, L2, <<"lit","3">>, <<"lit", "None">>, <<"lit", "empty">>, N1, <<"nonlit","n2">>, R(<<"x","Gee">>, <<>>, "call"), R(<<"x","Gee">>, <<"a","b">>, "bare"),
+SerVals == { L1, L2, <<"lit","3">>, <<"lit", "None">>, <<"lit", "empty">>, N1, R(<<"gin","macro">>, <<"W">>, "bare"), <<"nonlit","n2">>, R(<<"x","Gee">>, <<>>, "call"), R(<<"x","Gee">>, <<"a","b">>, "bare"),
              Pct(<<"W">>), <<"list", <<L1, <<"dict", << <<L2, <<"tuple", <<R(<<"x","Gee">>, <<>>, "call")>>>>>> >>>>>>>>,
              <<"list", <<L1, N1>>>>, <<"tuple", <<>>>>, <<"dict", <<>>>> }
 SerFilter(sc, c, v) ==
